@@ -506,3 +506,31 @@ Fixpoint run (T : tables) (redir : option N) (sc : stream * conn) (is : list inp
   end.
 
 Definition init_conn (h2 : bool) : conn := mkC h2 false false true false false.
+
+(** * Two streams sharing one frontend connection (product construction).
+    Each stream has its own backend connection (its own backend timer); the
+    frontend readiness word, the frontend timer and the session's life are shared. *)
+Record conn2 := mkC2 { k_h2 : bool; k_int_w : bool; k_ev_w : bool; k_ftimer : bool; k_closed : bool;
+                       k_bt1 : bool; k_bt2 : bool }.
+Definition view (k : conn2) (left : bool) : conn :=
+  mkC (k_h2 k) (k_int_w k) (k_ev_w k) (k_ftimer k) (if left then k_bt1 k else k_bt2 k) (k_closed k).
+Definition merge (k : conn2) (left : bool) (c : conn) : conn2 :=
+  mkC2 (c_h2 c) (c_int_w c) (c_ev_w c) (c_ftimer c) (c_closed c)
+       (if left then c_btimer c else k_bt1 k) (if left then k_bt2 k else c_btimer c).
+
+(** an input addressed to one of the two streams *)
+Definition step2 (T : tables) (redir : option N) (s1 s2 : stream) (k : conn2) (left : bool) (i : input)
+  : stream * stream * conn2 * list ev :=
+  if left then
+    let '(s1', c', e) := step T redir (s1, view k true) i in (s1', s2, merge k true c', e)
+  else
+    let '(s2', c', e) := step T redir (s2, view k false) i in (s1, s2', merge k false c', e).
+
+(** what a backend (or the router) can do to a stream: everything but the
+    client's own inputs and the frontend write pass / frontend timer *)
+Definition backend_side (i : input) : bool :=
+  match i with
+  | IConnect _ | IReqSent | IBackPartial | IBackHead | IBackEnd | IBackNoKeepAlive
+  | IBackClose | IBackGarbage | IBackTimeout => true
+  | _ => false
+  end.
